@@ -293,9 +293,9 @@ def damage_cases(rng, n):
 class C03(Base):
     ID = "C03"
     AREA = "parse"
-    LEMMA_FILES = ["FluentProofs/ParserLoops.lean", "FluentProofs/ParserLines.lean", "FluentProofs/ParserBasics.lean", "FluentProofs/ParserHoareEntry.lean", "FluentProofs/ConstTieSyntax.lean"]
+    LEMMA_FILES = ["FluentProofs/ParserLoops.lean", "FluentProofs/ParserLines.lean", "FluentProofs/ParserBasics.lean", "FluentProofs/ParserHoareEntry.lean", "FluentProofs/ParserValid.lean", "FluentProofs/ParserValidLeaf.lean", "FluentProofs/ParserValidExpr.lean", "FluentProofs/ParserValidEntry.lean", "FluentProofs/ConstTieSyntax.lean"]
     RULE = ("the C01 generator mix (accounting clauses and the admission predicate recomputed on every output of both "
-            "parsers) plus the damage generator: random well-formed resource x entry index x 23 violation kinds (the "
+            "parsers) plus the damage generator: random well-formed resource x entry index x 29 violation kinds (the "
             "documented ones) x 7 placements (first line, continuation line, nested placeable, call argument, variant "
             "value, term value, attribute), original and damaged text parsed side by side. Non-trivial = the output has "
             ">=1 Junk AND >=1 admitted message/term, or it is a damage pair; distinct = distinct case line.")
